@@ -21,5 +21,6 @@ TRUSTED = ['BaseObject.__eq__/SmartList.__eq__ (assumed contract)', 'uuid.uuid4/
 
 
 def bounded_jobs(tier, seed):
-    return [bj('rcc.b_hist', 'run_histories', tier, seed), bj('rcc.b_values', 'run_values', tier, seed),
+    return [bj('rcc.b_hist', 'run_histories', tier, seed), bj('rcc.b_hist', 'run_bulk_refusals', tier, seed),
+            bj('rcc.b_values', 'run_values', tier, seed),
             bj('rcc.b_C13', 'run_section_merge', tier, seed), bj('rcc.b_C13', 'run_property_merge', tier, seed)]
